@@ -48,6 +48,10 @@ type Case struct {
 	Mut  Mut         `json:"mut"`
 	// verification instant relative to the signed window
 	Time string `json:"time"` // mid date date-1 date+1 expires expires-1 expires+1 date-1ns expires+1ns
+	// Parsed: field-level mutations are applied to the object that ReadExchange returned for the
+	// written file (what a client holds), not to the object the signer built: anything the parser
+	// keeps beside the public fields must not stand in for them at verification.
+	Parsed bool `json:"parsed,omitempty"`
 }
 
 func instant(s *sxgkit.Spec, sel string) (sec, nsec int64) {
@@ -195,6 +199,20 @@ func check(c Case, r *vh.R) {
 	r.Class("mut:" + m.Class)
 	r.Class(s.Version)
 	target := e
+	if c.Parsed && !strings.HasPrefix(m.Class, "ser-") {
+		var buf bytes.Buffer
+		if err := e.Write(&buf); err != nil {
+			r.Failf("write-error", "Write failed: %v", err)
+			return
+		}
+		pe, err := signedexchange.ReadExchange(gen.Source(buf.Bytes(), gen.SourceModeOf(buf.Bytes())))
+		if err != nil {
+			r.Failf("read-error", "ReadExchange rejects the library's own output: %v", err)
+			return
+		}
+		target = pe
+		r.Class("mutated-after-parsing")
+	}
 	changed := false // does the mutation change canon / signed parameter / key / put t outside the window?
 	rejectedAtRead := false
 
@@ -613,7 +631,7 @@ func TestPropTamper(t *testing.T) {
 		if s.Fixture == 5 && m.Class == "fetcher" && m.Fixture == 3 {
 			m.Fixture = 2
 		}
-		return Case{Spec: *s, Mut: m, Time: tm}
+		return Case{Spec: *s, Mut: m, Time: tm, Parsed: rapid.Bool().Draw(t, "parsed")}
 	})
 }
 
